@@ -80,3 +80,29 @@ package lang
 //@   requires j != nil
 //@   loop 1 step (len(s) == len(old(s)) && (j.jobs[$idx] == nil || j.jobs[$idx].$lastObs)) || (len(s) == len(old(s))+1 && s[len(s)-1] != nil && s[len(s)-1].JobId == $sprintf1("%%%d", any($idx+1)) && s[len(s)-1].Process == j.jobs[$idx] && j.jobs[$idx] != nil && !j.jobs[$idx].$lastObs)
 //@   loop 1 step forall(k, 0, len(old(s)), s[k] == old(s)[k])
+
+// ---- C04 / C05: schedulers (lang/interpreter_pc.go) ----------------------------------------------------
+
+// waitProcess blocks until the process has finished; everything about that process may have
+// changed by then (trusted: a channel receive; liveness is not covered).
+//@ func waitProcess [C04 C05] trusted
+//@   requires p != nil
+//@   modifies *p
+
+//@ func (*Process).SetTerminatedState [C04 C05 C19]
+//@   requires p != nil
+//@   modifies p.hasTerminatedV
+//@   ensures p.hasTerminatedV == state
+
+// The documented rule: process i is skipped iff (`&&` and the previous exit number is non-zero) or
+// (`||` and it is zero) or (the previous one was skipped and i is joined by `&&`/`||`).
+//@ spec $skipN(prevSkip bool, and bool, or bool, prevExit int) bool = (and && prevExit != 0) || (or && prevExit == 0) || (prevSkip && (and || or))
+
+//@ func runModeNormal [C04 C19]
+//@   requires procs != nil
+//@   ensures imp(len(old(*procs)) == 0, result == 1)
+//@   ensures imp(len(*procs) > 0, result == (*procs)[len(*procs)-1].ExitNum)
+//@   loop 1 step imp($idx > 0, skipPipeline == $skipN(old(skipPipeline), (*procs)[$idx].OperatorLogicAnd, (*procs)[$idx].OperatorLogicOr, (*procs)[$idx-1].ExitNum))
+//@   loop 1 step imp($idx > 0 && skipPipeline, (*procs)[$idx].hasTerminatedV && (*procs)[$idx].ExitNum == (*procs)[$idx-1].ExitNum)
+//@   loop 1 step imp($idx > 0 && !skipPipeline, (*procs)[$idx].hasTerminatedV == old((*procs)[$idx].hasTerminatedV) && (*procs)[$idx].ExitNum == old((*procs)[$idx].ExitNum))
+//@   loop 1 step imp($idx == 0, skipPipeline == old(skipPipeline))
